@@ -193,14 +193,29 @@ func Open(fileName string, opts *Options) (*AppendableFile, error) {
 		r := bufio.NewReader(f)
 
 		mLenBs := make([]byte, 4)
-		_, err := r.Read(mLenBs)
+		_, err := io.ReadFull(r, mLenBs)
 		if err != nil {
+			f.Close()
 			return nil, ErrCorruptedMetadata
 		}
 
-		mBs := make([]byte, binary.BigEndian.Uint32(mLenBs))
-		_, err = r.Read(mBs)
+		finfo, err := f.Stat()
 		if err != nil {
+			f.Close()
+			return nil, err
+		}
+
+		// metadata length comes from the file: it can not exceed the file size
+		mLen := int64(binary.BigEndian.Uint32(mLenBs))
+		if mLen > finfo.Size()-4 {
+			f.Close()
+			return nil, ErrCorruptedMetadata
+		}
+
+		mBs := make([]byte, mLen)
+		_, err = io.ReadFull(r, mBs)
+		if err != nil {
+			f.Close()
 			return nil, ErrCorruptedMetadata
 		}
 
@@ -388,6 +403,8 @@ func (aof *AppendableFile) writer(w io.Writer) (cw io.Writer, err error) {
 		cw = lzw.NewWriter(w, lzw.MSB, 8)
 	case appendable.ZLibCompression:
 		cw, err = zlib.NewWriterLevel(w, aof.compressionLevel)
+	default:
+		err = fmt.Errorf("%w: unknown compression format %d", ErrCorruptedMetadata, aof.compressionFormat)
 	}
 	return
 }
@@ -402,6 +419,8 @@ func (aof *AppendableFile) reader(r io.Reader) (reader io.ReadCloser, err error)
 		reader = lzw.NewReader(r, lzw.MSB, 8)
 	case appendable.ZLibCompression:
 		reader, err = zlib.NewReader(r)
+	default:
+		err = fmt.Errorf("%w: unknown compression format %d", ErrCorruptedMetadata, aof.compressionFormat)
 	}
 	return
 }
@@ -563,7 +582,13 @@ func (aof *AppendableFile) ReadAt(bs []byte, off int64) (n int, err error) {
 		return 0, err
 	}
 
-	cBs := make([]byte, binary.BigEndian.Uint32(clenBs))
+	clen := int64(binary.BigEndian.Uint32(clenBs))
+	if clen > aof.offset()-(off+4) {
+		// the chunk length is read from the file: it can not go beyond the data
+		return 0, io.EOF
+	}
+
+	cBs := make([]byte, clen)
 	_, err = aof.readAt(cBs, off+4)
 	if err != nil {
 		return 0, err
